@@ -36,6 +36,12 @@ def classify(doc):
     if max(ds) > 1e-5:
         return 'band', pts          # non-coplanar input: rejected or not depending on where the deviation sits; only "never panic" is judged
     if max(ds) > 1e-8: return 'band', pts
+    # the crate measures coplanarity (gate 1e-7) against the plane of the FIRST THREE points: a deviation d of those points tilts
+    # that plane and is amplified by the lever arm (extent of the outline / size of the first corner) at the far vertices
+    e1, e2 = sub(pts[1], pts[0]), sub(pts[2], pts[1])
+    corner = fnorm(cross(e1, e2)) / max(fnorm(e1), fnorm(e2), 1e-300)        # height of the first corner triangle
+    extent = max(fnorm(sub(p, pts[0])) for p in pts)
+    if corner <= 0 or max(ds) * (1 + extent / corner) * 4 > 1e-8: return 'band', pts
     ax = drop_axis(V); p2 = project(pts, ax)
     n = len(p2)
     # consecutive duplicates / tiny edges -> band
